@@ -15,10 +15,27 @@ Record interp := {
   i_user : toks -> list value -> value                 (* user function [path] applied to argument values *)
 }.
 
+(** what a core::fmt builder is asked to format: a value through its type's
+    own `Debug::fmt`, or a value through the user's `method(value, formatter)`
+    (the `Educe__DebugField` wrapper of debug/common.rs) *)
+Inductive builder_kind := BStruct | BTuple | BMap.
+Inductive fmt_arg :=
+| FADebug (v : value)
+| FAVia (method : toks) (v : value).
+
 Inductive event :=
 | EvHash (v : value)                      (* <field type as Hash>::hash(&v, state) *)
 | EvHashUsize (n : nat)                   (* <usize as Hash>::hash(&n, state) *)
-| EvUser (path : toks) (args : list value).   (* a call of the user function [path] *)
+| EvUser (path : toks) (args : list value)    (* a call of the user function [path] *)
+(* --- core::fmt builder calls (Debug) --- *)
+| EvBuilderNew (k : builder_kind) (name : string)
+      (* f.debug_struct(name) / f.debug_tuple(name) / f.debug_map() (name = "") *)
+| EvBuilderField (key : option string) (a : fmt_arg)
+      (* DebugStruct::field(key, value) / DebugTuple::field(value) (key = None) *)
+| EvBuilderEntry (key : string) (a : fmt_arg)
+      (* DebugMap::entry(&Educe__RawString(key), value): the key is written verbatim *)
+| EvBuilderFinish                          (* builder.finish() *)
+| EvWriteStr (s : string).                 (* f.write_str(s) *)
 
 Inductive res :=
 | RVal (v : value)
@@ -164,6 +181,54 @@ Fixpoint match_pat (st : store) (p : pat) (v : value) {struct p} : option env :=
       end
   end.
 
+(** ** the core::fmt objects the Debug templates handle, as values.
+    The formatter is opaque (so every statement about builder calls holds for
+    every formatter state: compact, alternate, width ...); a builder only
+    remembers its kind; the two local helper types of debug/common.rs are
+    tuple-struct values.  `Educe__DebugField<V, M>(V, PhantomData<M>)`: the
+    Debug impl attached to the (statement-local) wrapper type depends on the
+    method path only, which the model keeps in the PhantomData position. *)
+Definition formatter_val : value := VData (Some "Formatter") [].
+Definition builder_name (k : builder_kind) : string :=
+  match k with BStruct => "DebugStruct" | BTuple => "DebugTuple" | BMap => "DebugMap" end.
+Definition builder_val (k : builder_kind) : value := VData (Some (builder_name k)) [].
+Definition raw_string_val (s : string) : value := VData (Some "Educe__RawString") [("0", VStr s)].
+Definition debug_field_val (method : toks) (v : value) : value :=
+  VData (Some "Educe__DebugField") [("0", v); ("1", VTok method)].
+
+Definition is_formatter (v : value) : bool :=
+  match v with VData (Some n) [] => String.eqb n "Formatter" | _ => false end.
+Definition builder_kind_of (v : value) : option builder_kind :=
+  match v with
+  | VData (Some n) [] =>
+      if String.eqb n "DebugStruct" then Some BStruct
+      else if String.eqb n "DebugTuple" then Some BTuple
+      else if String.eqb n "DebugMap" then Some BMap else None
+  | _ => None
+  end.
+Definition as_raw_string (v : value) : option string :=
+  match v with
+  | VData (Some n) [(_, VStr s)] => if String.eqb n "Educe__RawString" then Some s else None
+  | _ => None
+  end.
+Definition as_debug_field (v : value) : option (toks * value) :=
+  match v with
+  | VData (Some n) [(_, x); (_, VTok m)] =>
+      if String.eqb n "Educe__DebugField" then Some (m, x) else None
+  | _ => None
+  end.
+
+(** what formatting [v] (a reference handed to a builder) means *)
+Definition fmt_arg_of (st : store) (v : value) : option fmt_arg :=
+  match strip st v with
+  | Some w =>
+      match as_debug_field w with
+      | Some (m, x) => option_map (FAVia m) (strip st x)
+      | None => Some (FADebug w)
+      end
+  | None => None
+  end.
+
 (** ** calls into ::core and into user code *)
 Section Calls.
   Variable I : interp.
@@ -221,6 +286,71 @@ Section Calls.
     | None => (RStuck, s)
     end.
 
+  (** `<V as Debug>::fmt(v, fm)` for the two helper types of debug/common.rs: the wrapper's
+      impl is `method(self.0, educe__f)`; Educe__RawString writes its string.  (Any other value
+      has the field type's own impl, which is not interpreted: the builder events name the value.) *)
+  Definition debug_fmt (v fm : value) (s : state) : res * state :=
+    match strip (st_store s) v with
+    | Some w =>
+        match as_debug_field w with
+        | Some (m, x) => call_user m [x; fm] s
+        | None => match as_raw_string w with
+                  | Some str => (RVal VUnit, log (EvWriteStr str) s)
+                  | None => (RStuck, s)
+                  end
+        end
+    | None => (RStuck, s)
+    end.
+
+  (** method calls of the Debug templates: receiver variable [x] bound to [r].
+      `fmt::Result` values are [VUnit] (the calls are performed whatever the sink answers:
+      core's builders keep the error inside) *)
+  Definition call_method (x : string) (r : value) (m : string) (args : list value) (s : state)
+    : res * state :=
+    if String.eqb x "f" then
+      if is_formatter r then
+        match args with
+        | [VStr n] =>
+            if String.eqb m "debug_struct" then (RVal (builder_val BStruct), log (EvBuilderNew BStruct n) s)
+            else if String.eqb m "debug_tuple" then (RVal (builder_val BTuple), log (EvBuilderNew BTuple n) s)
+            else if String.eqb m "write_str" then (RVal VUnit, log (EvWriteStr n) s)
+            else (RStuck, s)
+        | _ => (RStuck, s)
+        end
+      else (RStuck, s)
+    else if String.eqb x "builder" then
+      match builder_kind_of r, args with
+      | Some BStruct, [VStr k; v] =>
+          if String.eqb m "field" then
+            match fmt_arg_of (st_store s) v with
+            | Some a => (RVal r, log (EvBuilderField (Some k) a) s)
+            | None => (RStuck, s)
+            end
+          else (RStuck, s)
+      | Some BTuple, [v] =>
+          if String.eqb m "field" then
+            match fmt_arg_of (st_store s) v with
+            | Some a => (RVal r, log (EvBuilderField None a) s)
+            | None => (RStuck, s)
+            end
+          else (RStuck, s)
+      | Some BMap, [kr; v] =>
+          if String.eqb m "entry" then
+            match strip (st_store s) kr with
+            | Some kv =>
+                match as_raw_string kv, fmt_arg_of (st_store s) v with
+                | Some k, Some a => (RVal r, log (EvBuilderEntry k a) s)
+                | _, _ => (RStuck, s)
+                end
+            | None => (RStuck, s)
+            end
+          else (RStuck, s)
+      | Some _, [] =>
+          if String.eqb m "finish" then (RVal VUnit, log EvBuilderFinish s) else (RStuck, s)
+      | _, _ => (RStuck, s)
+      end
+    else (RStuck, s).
+
   Definition tuple_fields (vs : list value) : list (string * value) :=
     map (fun '(i, v) => (dec i, v))
         ((fix go (i : nat) (l : list value) :=
@@ -231,6 +361,8 @@ Section Calls.
     | RCore segs => call_core segs args s
     | RUser path => call_user path args s
     | RLocal ["Some"] => match args with [a] => (RVal (VOpt (Some a)), s) | _ => (RStuck, s) end
+    | RLocal ["Educe__RawString"] =>
+        match args with [VStr k] => (RVal (raw_string_val k), s) | _ => (RStuck, s) end
     | RSelfV v => (RVal (VData (Some v) (tuple_fields args)), s)
     | RSelf => (RVal (VData None (tuple_fields args)), s)
     | RLocal _ => (RStuck, s)
@@ -269,6 +401,21 @@ Section Calls.
           | ELet _ x e1 =>
               match ev en e1 s with
               | (RVal v, s1) => eval_block ((x, v) :: en) r s1
+              | other => other
+              end
+          | EDebugMapBuilder =>
+              (* struct Educe__RawString ..; let mut builder = f.debug_map(); *)
+              match lookup "f" en with
+              | Some fv => if is_formatter fv
+                           then eval_block (("builder", builder_val BMap) :: en) r
+                                           (log (EvBuilderNew BMap "") s)
+                           else (RStuck, s)
+              | None => (RStuck, s)
+              end
+          | EDebugFieldArg _ _ _ _ m fe =>
+              (* let arg = { .. Educe__DebugField(fe, PhantomData::<Self>) }; *)
+              match ev en fe s with
+              | (RVal v, s1) => eval_block (("arg", debug_field_val m v) :: en) r s1
               | other => other
               end
           | _ =>
@@ -323,7 +470,20 @@ Section Calls.
             end
         | _ => (RStuck, s)
         end
-    | EMethod _ _ _ => (RStuck, s)
+    | EMethod recv m args =>
+        (* only the method calls of the Debug templates: receiver `f` or `builder` *)
+        match recv with
+        | EVar x =>
+            match lookup x en with
+            | Some r =>
+                match eval_args eval en args s with
+                | (Some vs, _, s1) => call_method x r m vs s1
+                | (None, y, s1) => (y, s1)
+                end
+            | None => (RStuck, s)
+            end
+        | _ => (RStuck, s)
+        end
     | ERef e1 | ERefMut e1 =>
         match place_of en e1 with
         | Some p => (RVal (VRef p), s)
@@ -424,7 +584,16 @@ Section Calls.
             end
         | (None, x, s1) => (x, s1)
         end
-    | EMacro _ _ => (RStuck, s)
+    | EMacro name ts =>
+        (* ::core::stringify!(ident) is the identifier's spelling (r#type gives "r#type");
+           ::core::stringify!() is "" *)
+        if String.eqb name "stringify" then
+          match ts with
+          | [] => (RVal (VStr ""), s)
+          | [TIdent x] => (RVal (VStr x), s)
+          | _ => (RStuck, s)
+          end
+        else (RStuck, s)
     | ELet _ _ _ => (RStuck, s)            (* only meaningful inside a block *)
     | ESemi e1 =>
         match eval en e1 s with
@@ -446,7 +615,7 @@ Section Calls.
         | (RVal v, s1) => eval_arms eval en v arms s1
         | other => other
         end
-    | EDebugMapBuilder => (RStuck, s)          (* local item declarations: not interpreted *)
+    | EDebugMapBuilder => (RStuck, s)          (* statements: only meaningful inside a block *)
     | EDebugFieldArg _ _ _ _ _ _ => (RStuck, s)
     | EDiscrMatch ds eq gt lt =>
         (* compares the declared discriminant values of the variants `self` and `other` are in *)
